@@ -137,7 +137,7 @@ def gen_driver(facts, cfg, include_source=True):
     w(f'using Shell = {shell_t}; using Comp = {comp_t};')
     w('static verif::Hits H;')
     # client identifiers related by prefix and by letter case
-    w('static const std::vector<std::string> CLIENTS = {"A", "AB", "a"};')
+    w('static const std::vector<std::string> CLIENTS = {"A", "AB", "a", "B"};')
     # ---- environment
     w('struct Env {')
     w('  dzn::locator user_loc; dzn::pump user_pump; dzn::runtime user_rt; verif::Service svc;')
@@ -329,7 +329,7 @@ def gen_driver(facts, cfg, include_source=True):
         w('  { Fix fx; verif::emit("C09", "import-dispatcher-identity", "fixture", fx.pump == &fx.env.user_pump, ""); }')
     # C10
     w('  // ---------- C10: every single event left unbound')
-    ncl10 = [0, 1, 2, 3] if mcport else [0]     # 0: final construction with no client registered at all
+    ncl10 = [0, 1, 2, 3, 4] if mcport else [0]     # 0: final construction with no client registered at all
     w(f'  for (int ncl : {{{", ".join(map(str, ncl10))}}}) {{')
     w('    int n = count_bindings(ncl);')
     w('    for (int k = 0; k < n; ++k) {')
